@@ -34,6 +34,13 @@ Proof. exact owned_roundtrip. Qed.
 Theorem C15_read_back : forall s, schema_wf s = true -> read_back (O s) = Some s.
 Proof. exact read_back_sval. Qed.
 
+(* the executable decoder the runner compares with from_bytes::<OwnedDataModelType> (the owned
+   enum unfolded length+1 levels: every level of nesting costs at least one byte) returns the
+   tree itself and hands back what follows *)
+Theorem C15_decoder_complete : forall s rest,
+  schema_ok s = true -> schema_wf s = true -> bytes_ok rest -> schema_de (enc (B s) ++ rest) = Ok (s, rest).
+Proof. exact schema_de_complete. Qed.
+
 (* non-vacuity: a tree using every data kind, its bytes, and the way back *)
 Definition C15_ex : schema :=
   SStruct [66] DStruct
@@ -53,3 +60,4 @@ Print Assumptions C15_conversion_faithful.
 Print Assumptions C15_same_bytes.
 Print Assumptions C15_roundtrip.
 Print Assumptions C15_read_back.
+Print Assumptions C15_decoder_complete.
